@@ -131,3 +131,34 @@ func DigestsWith(b atree.DigesterBuilder, hip atree.HashInputProvider, key TV) (
 	}
 	return out, nil
 }
+
+// HashInputScratch produces the same message as HashInput but WRITES IT INTO the scratch buffer the
+// library supplies and returns a sub-slice of it: the digester's message then aliases the pooled
+// digester's own scratch space, so a digester handed back to its pool too early, or reused without
+// being reset, corrupts digests that are computed lazily (levels 1..3).
+func HashInputScratch(v atree.Value, buf []byte) ([]byte, error) {
+	tv, ok := v.(TV)
+	if !ok {
+		return nil, fmt.Errorf("hash input: not a TV: %T", v)
+	}
+	if len(buf) < 12 {
+		buf = make([]byte, 12)
+	}
+	binary.BigEndian.PutUint32(buf, tv.Size)
+	binary.BigEndian.PutUint64(buf[4:], tv.Pay)
+	return buf[:12], nil
+}
+
+// HashInputBucketScratch: HashInputBucket's message (non-injective: genuine collisions on every
+// level), written into the supplied scratch buffer and returned as a sub-slice of it.
+func HashInputBucketScratch(v atree.Value, buf []byte) ([]byte, error) {
+	tv, ok := v.(TV)
+	if !ok {
+		return nil, fmt.Errorf("hash input: not a TV: %T", v)
+	}
+	if len(buf) < 2 {
+		buf = make([]byte, 2)
+	}
+	buf[0], buf[1] = byte(tv.Pay%7), 0xAB
+	return buf[:2], nil
+}
